@@ -70,6 +70,8 @@ type Interp struct {
 	catchers int
 	ghost    map[string]Value
 	loopCnt  map[*ssa.BasicBlock]int
+	freezeExempt int
+	oidSeq       int
 }
 
 type obs struct {
@@ -377,8 +379,18 @@ func (in *Interp) call(caller *frame, fn *ssa.Function, args []Value, free []Val
 		fr.env[fv] = free[i]
 	}
 	fr.block = fn.Blocks[0]
+	// tidwall/btree's IsoCopy bumps the copy-on-write generation counter of the SOURCE tree header
+	// (under the tree's own lock). That is the one benign write into a structure an older snapshot
+	// reaches; it is exempt from the freeze monitor (DESIGN.md section 10.5).
+	exempt := in.frozen != nil && fn.Name() == "IsoCopy" && strings.Contains(fn.String(), "tidwall/btree")
+	if exempt {
+		in.freezeExempt++
+	}
 	for fr.block != nil {
 		in.runFrame(fr)
+	}
+	if exempt {
+		in.freezeExempt--
 	}
 	in.depth--
 	return fr.result
